@@ -335,8 +335,13 @@ func (h *History) BuildStruct(av protoreflect.Message, mt protoreflect.MessageTy
 			err = fmt.Errorf("struct build panicked: %v", r)
 		}
 	}()
-	root := mt.New().Interface()
-	pv := reflect.New(reflect.TypeOf(root).Elem())
+	var typ reflect.Type
+	if mi, ok := mt.(*protoimpl.MessageInfo); ok && mi.GoReflectType != nil {
+		typ = mi.GoReflectType.Elem() // no call into the generated code at all
+	} else {
+		typ = reflect.TypeOf(mt.New().Interface()).Elem()
+	}
+	pv := reflect.New(typ)
 	if err := h.fillStruct(pv, av); err != nil {
 		return nil, err
 	}
